@@ -654,6 +654,11 @@ fn spawn_async_ao_list_in_task'''),
         ('plain-operator-strips-tabs', 'brush-parser/src/parser/peg.rs', "                    remove_tabs: false,", "                    remove_tabs: true,"),
         ('backslash-in-the-delimiter-does-not-count-as-quoting', 'brush-parser/src/parser/peg.rs', [("specific_operator(\"<<\") here_tag:here_tag() doc:[_] closing_tag:here_tag() {\n                let requires_expansion = !here_tag.to_str().contains(['\\'', '\"', '\\\\']);", "specific_operator(\"<<\") here_tag:here_tag() doc:[_] closing_tag:here_tag() {\n                let requires_expansion = !here_tag.to_str().contains(['\\'', '\"', '\"']);")]),
     ],
+    'U67': [
+        ('attribute-flags-arm-skipped-for-special-parameters', 'brush-core/src/expansion.rs', "                op: ParameterTransformOp::ToAttributeFlags,\n            } => {", "                op: ParameterTransformOp::ToAttributeFlags,\n            } if !matches!(parameter, brush_parser::word::Parameter::Special(_)) => {"),
+        ('assignment-logic-arm-only-for-direct-parameters', 'brush-core/src/expansion.rs', "                op: ParameterTransformOp::ToAssignmentLogic,\n            } => {", "                op: ParameterTransformOp::ToAssignmentLogic,\n            } if !indirect => {"),
+        ('quoted-operator-declared-unreachable', 'brush-core/src/expansion.rs', "            brush_parser::word::ParameterTransformOp::ToAssignmentLogic\n            | brush_parser::word::ParameterTransformOp::ToAttributeFlags => {\n                unreachable!(\"covered in caller\")", "            brush_parser::word::ParameterTransformOp::ToAssignmentLogic\n            | brush_parser::word::ParameterTransformOp::CapitalizeInitial\n            | brush_parser::word::ParameterTransformOp::ToAttributeFlags => {\n                unreachable!(\"covered in caller\")"),
+    ],
     'U66': [
         ('failed-redirection-of-a-compound-command-ends-the-script', 'brush-core/src/interp.rs', "                        if let Err(e) =\n                            setup_redirect(&mut pipeline_context.shell, &mut params, redirect).await\n                        {\n                            writeln!(params.stderr(&pipeline_context.shell), \"error: {e}\")?;\n                            let mut result = ExecutionResult::general_error();\n                            if !params.suppress_errexit {\n                                pipeline_context.shell.apply_errexit_if_enabled(&mut result);\n                            }\n                            return Ok(result.into());\n                        }", "                        setup_redirect(&mut pipeline_context.shell, &mut params, redirect).await?;"),
         ('failed-redirection-of-a-compound-command-ignored', 'brush-core/src/interp.rs', "                            if !params.suppress_errexit {\n                                pipeline_context.shell.apply_errexit_if_enabled(&mut result);\n                            }\n                            return Ok(result.into());", "                            if !params.suppress_errexit {\n                                pipeline_context.shell.apply_errexit_if_enabled(&mut result);\n                            }"),
